@@ -165,6 +165,19 @@ fn check_curve(c: &Curve, mode: GameMode, pts: &[PathControlPoint], l: Option<f6
             return Err(format!("interpolate_vertices({i}, {d}) = {got:?}, linear interpolation gives {want:?}"));
         }
     }
+    // a copy made with clone_from into a curve that held more (and other) points is the same curve
+    {
+        let long: Vec<PathControlPoint> = (0..(pts.len() * 3 + 40)).map(|i| PathControlPoint { pos: Pos::new((i * 17 % 300) as f32, (i * 31 % 200) as f32), path_type: if i == 0 { Some(rosu_map::section::hit_objects::PathType::LINEAR) } else { None } }).collect();
+        let mut other = Curve::new(mode, &long, None, &mut CurveBuffers::default());
+        other.clone_from(c);
+        if other.path().len() != path.len() || other.lengths().len() != lengths.len() || other.dist().to_bits() != dist.to_bits() || other.lengths().iter().zip(lengths).any(|(a, b)| a.to_bits() != b.to_bits()) {
+            return Err(format!("clone_from into a longer curve: {} path points / {} lengths / dist {} instead of {} / {} / {}", other.path().len(), other.lengths().len(), other.dist(), path.len(), lengths.len(), dist));
+        }
+        let cl = c.clone();
+        if cl.path().len() != path.len() || cl.lengths().len() != lengths.len() {
+            return Err("clone() differs from the curve".into());
+        }
+    }
     // borrowed view behaves identically
     let mut bufs = CurveBuffers::default();
     let b = BorrowedCurve::new(mode, pts, l, &mut bufs);
